@@ -312,6 +312,15 @@ Proof.
   destruct (pair_eqb k x) eqn:E; [|reflexivity]. apply pair_eqb_spec in E. subst. contradiction.
 Qed.
 
+Lemma del_key_app : forall k l1 l2, del_key k (l1 ++ l2) = del_key k l1 ++ del_key k l2.
+Proof. intros. unfold del_key. apply filter_app. Qed.
+Lemma del_key_not_in : forall k l, ~ In k l -> del_key k l = l.
+Proof. intros. unfold del_key. apply filter_id_not_in. assumption. Qed.
+Lemma live_keys_set_inst_gone : forall k s insts,
+  NoDup (map inst_id insts) -> live (k, s) = false ->
+  live_keys (set_inst k s insts) = del_key k (live_keys insts).
+Proof. intros. unfold del_key. apply filter_live_set_inst_gone; assumption. Qed.
+
 Lemma set_marker_absent_own : forall ident f lv n v, ~ In n lv ->
   set_marker (n, ident) v (own ident f lv) = own ident f lv ++ [((n, ident), v)].
 Proof.
@@ -616,8 +625,8 @@ Section Inv.
       pose proof (inv_ids _ _ I) as NDi.
       pose proof (inst_state_In _ _ _ Es) as Hin0.
       pose proof (inv_fresh _ _ I _ Hin0) as Hf. unfold inst_id in Hf. simpl in Hf.
-      assert (Hd0 : filter (fun x => negb (pair_eqb (n, id) x)) (deployed st0) = deployed st0).
-      { apply filter_id_not_in. apply fresh_not_in_d0. exact Hf. }
+      assert (Hd0 : del_key (n, id) (deployed st0) = deployed st0).
+      { apply del_key_not_in. apply fresh_not_in_d0. exact Hf. }
       assert (Common : forall s1, was_added ((n, id), s1) = was_added ((n, id), s0) ->
                 Inv (mkAcc PDeploy (a_todo a) (set_inst (n, id) s1 (a_insts a)) (a_clean a) (a_live a))
                     (mkD (live_keys (set_inst (n, id) s1 (a_insts a)) ++ deployed st0) (markers st))).
@@ -642,20 +651,24 @@ Section Inv.
           assert (X := Common IRemoved eq_refl).
           replace (remove_workload st n id)
             with (mkD (live_keys (set_inst (n, id) IRemoved (a_insts a)) ++ deployed st0) (markers st)); [exact X|].
-          unfold remove_workload. f_equal. rewrite (inv_dep _ _ I). unfold del_key. rewrite filter_app, Hd0.
-          f_equal. symmetry. apply filter_live_set_inst_gone; [exact NDi | reflexivity].
+          unfold remove_workload. f_equal. rewrite (inv_dep _ _ I). rewrite del_key_app, Hd0.
+          f_equal. apply live_keys_set_inst_gone; [exact NDi | reflexivity].
       + (* instance whose AddWorkload failed *)
         assert (X := Common IFailedGone eq_refl).
         assert (Hnk : ~ In (n, id) (live_keys (a_insts a))).
         { eapply not_live_not_in_keys; eauto. }
         assert (Elk : live_keys (set_inst (n, id) IFailedGone (a_insts a)) = live_keys (a_insts a)).
-        { rewrite filter_live_set_inst_gone by (auto). apply filter_id_not_in. exact Hnk. }
-        replace st' with (mkD (live_keys (set_inst (n, id) IFailedGone (a_insts a)) ++ deployed st0) (markers st)).
-        * inversion H; subst a'. exact X.
-        * rewrite Elk. destruct inj; inversion H; subst.
-          -- destruct st as [d m]. simpl. f_equal. symmetry. apply (inv_dep _ _ I).
-          -- unfold remove_workload. f_equal. rewrite (inv_dep _ _ I). unfold del_key.
-             rewrite filter_app, Hd0. f_equal. symmetry. apply filter_id_not_in. exact Hnk.
+        { rewrite live_keys_set_inst_gone by (auto). apply del_key_not_in. exact Hnk. }
+        assert (Hst : st' = if inj then st else remove_workload st n id) by (inversion H; reflexivity).
+        assert (Ha : a' = mkAcc PDeploy (a_todo a) (set_inst (n, id) IFailedGone (a_insts a)) (a_clean a) (a_live a))
+          by (inversion H; reflexivity).
+        rewrite Ha, Hst.
+        replace (if inj then st else remove_workload st n id)
+          with (mkD (live_keys (set_inst (n, id) IFailedGone (a_insts a)) ++ deployed st0) (markers st)); [exact X|].
+        rewrite Elk. destruct inj.
+        * destruct st as [d m]. simpl. f_equal. symmetry. apply (inv_dep _ _ I).
+        * unfold remove_workload. f_equal. rewrite (inv_dep _ _ I).
+          rewrite del_key_app, Hd0. f_equal. symmetry. apply del_key_not_in. exact Hnk.
     - (* DeleteProcessing *)
       destruct (mem_str n (a_clean a)) eqn:Ec; [|discriminate].
       destruct inj.
@@ -685,7 +698,7 @@ Section Inv.
   Theorem inv_run : forall cs a st a' st', Inv a st ->
     run b ident plan (deployed st0) (a, st) cs = Some (a', st') -> Inv a' st'.
   Proof.
-    induction cs as [|c t IH]; intros a st a' st' I H; simpl in H.
+    induction cs as [|c t IH]; intros a st a' st' I H; cbn [run] in H.
     - inversion H; subst. exact I.
     - destruct (step b ident plan (deployed st0) (a, st) c) as [[a1 st1]|] eqn:E; [|discriminate].
       eapply IH; [|exact H]. eapply inv_step; eauto.
@@ -723,7 +736,8 @@ Section Inv.
     intros a st n I Hnn. destruct (status_formula _ _ n I) as [R S].
     pose proof (live_le_adds (a_insts a) n). pose proof (adds_le_insts (a_insts a) n).
     pose proof (inv_cap _ _ I n). pose proof (cnt_nonneg (fun p => live p && on_node n p) (a_insts a)).
-    unfold live_on in *. unfold status at 2. destruct (mem_str n (a_live a)); lia.
+    assert (S0 : status st0 n = recorded st0 n + marker_sum (markers st0) n) by reflexivity.
+    unfold live_on in *. rewrite S, S0. destruct (mem_str n (a_live a)); lia.
   Qed.
 
   Theorem final_of_inv : forall a st, Inv a st -> returned a = true ->
@@ -788,3 +802,35 @@ Proof.
   destruct (run b ident plan (deployed st0) (start_acc plan, st0) cs1) as [[a1 st1]|] eqn:E; [|discriminate].
   exists a1, st1. split; [reflexivity|]. intros n Hn. eapply C13_bounds_thm; eauto.
 Qed.
+
+(* ---------- non-vacuity and a remark on the non-atomic read ---------- *)
+Local Open Scope string_scope.
+Definition ex_plan : list (string * Z) := [("n1", 2%Z); ("n2", 1%Z)].
+Definition ex_init : dstate := mkD [("n1", "old")] [].
+Definition ex_calls : list call :=
+  [CCreateProc "n1" 2 false; CCreateProc "n2" 1 false;
+   CAdd "n1" "a" false; CAdd "n2" "b" true; CAdd "n1" "c" false; CRemove "n1" "a" false;
+   CRemove "n2" "b" false; CDelProc "n2" false; CDelProc "n1" false].
+
+Example ex_accepted :
+  wf_plan ex_plan /\ has_marker_of ex_init "id" = false /\
+  exists a st, run Etcd "id" ex_plan (deployed ex_init) (start_acc ex_plan, ex_init) ex_calls = Some (a, st)
+    /\ returned a = true /\ status st "n1" = 2%Z /\ recorded st "n1" = 2%Z /\ status st "n2" = 0%Z.
+Proof.
+  split; [split; [repeat constructor; simpl; intuition congruence|]|].
+  - intros n k [H|[H|[]]]; inversion H; lia.
+  - split; [reflexivity|]. eexists. eexists. split; [vm_compute; reflexivity|]. repeat split.
+Qed.
+
+(* GetDeployStatus reads the deploy keys and the markers in two separate store
+   reads (store/*/deploy.go).  A reader racing with the LAST AddWorkload of a
+   node may combine the deploy keys from before with the markers from after:
+   it then sees one instance fewer than is recorded.  (Outside the property's
+   observation points, which are between two store calls.) *)
+Definition torn_status (before after : dstate) (n : string) : Z :=
+  recorded before n + marker_sum (markers after) n.
+Example torn_read_undercounts :
+  let s1 := mkD [] [(("n1", "id"), 1%Z)] in
+  let s2 := fst (add_workload Etcd s1 "n1" "a" "id") in
+  (torn_status s1 s2 "n1" < recorded s2 "n1")%Z.
+Proof. vm_compute. reflexivity. Qed.
